@@ -77,6 +77,7 @@ SUITE = {
     "C05": ("timestep", "after every solve under a time scheme the stored rates follow the documented scheme from the previous state and the new solution; equation of motion on the free dofs for the linear kinds"),
     "C15": ("history", "every stored iteration keeps the digest it was saved with, verified at later Save_Iter / Set_Iter calls; the entry just saved holds the live primary fields"),
     "C17": ("phasefield", "the two parts returned by a split are finite and add up to the undamaged stress / energy; between consecutive saved steps the history energy (History) and the nodal damage (damage-based solvers) do not decrease - incl. the repository's crack-propagation examples, ~900 saved steps"),
+    "C08": ("location", "the reference coordinates returned by the point location reproduce the query point through the element's own shape functions and nodes (thorough tier, repository tests only)"),
     "C11": ("law", "every freshly updated elastic law is symmetric, positive definite, C.S = I"),
     "C12": ("fearray", "FeArray @ / dot / ddot between two fields equal the per-point product at sampled points, result typed as a field"),
     "C14": ("stale", "matrices served from a simulation's cache equal those a deep copy told that everything changed assembles anew"),
